@@ -134,7 +134,7 @@ def cases(tier, seed):
     add("frame.args", dict(fn="swap", sys=[1, 2], rdims=[2, 3], cdims=[3, 2]), "frame/swap")
     add("frame.args", dict(fn="swap", sys=[1, 3], rdims=[2, 3, 2], cdims=[3, 2, 2]), "frame/swap")
     for dt in ("int8", "uint8", "int16", "int32", "bool"):
-        add("int_dtype", dict(dtype=dt, dims=[2, 3], sys=[1]), "int_dtype/%s" % dt)
+        add("int_dtype", dict(dtype=dt, dims=[2, 3], sys=[1], only="permute_systems"), "int_dtype/%s" % dt)
     # vec
     for shp in ([2, 3], [3, 1], [1, 4], [2, 3, 2]):
         add("vec.index", dict(shape=shp), "vec")
